@@ -19,7 +19,7 @@ KEY = tup(ref('Arena'), IntS)
 
 S, E, A, L, LN = ('self._start_to_block', 'self._stop_to_block', 'self._allocated_blocks',
                   'self._len_to_seq', 'self._lengths')
-AX = {'a': 'refs("Arena")', 'x': 'ints()'}
+AX = {'a': 'anyrefs("Arena")', 'x': 'ints()'}
 AXY = dict(AX, y='ints()')
 SB = 'get(%s, (a, x))' % S
 EB = 'get(%s, (a, x))' % E
@@ -44,6 +44,10 @@ def geometry_inv():
             'implies(has(%s, (a, x, y)), 0 <= x and x < y and y <= a.size and x %% 8 == 0 and y %% 8 == 0)' % A),
         'allocated_disjoint_from_free': Forall(dict(AXY, z='ints()'),
             'implies(has(%s, (a, x, y)) and has(%s, (a, z)), y <= z or get(%s, (a, z))[2] <= x)' % (A, S, S)),
+        # only arenas that exist occur in the indexes (what makes a newly mapped arena free of any earlier block)
+        'only_existing_arenas_are_indexed': Forall(AX, 'implies(has(%s, (a, x)), allocated(a))' % S),
+        'only_existing_arenas_are_indexed_by_stop': Forall(AX, 'implies(has(%s, (a, x)), allocated(a))' % E),
+        'only_existing_arenas_have_allocated_blocks': Forall(AXY, 'implies(has(%s, (a, x, y)), allocated(a))' % A),
         'allocated_blocks_disjoint': Forall(dict(AXY, z='ints()', u='ints()'),
             'implies(has(%s, (a, x, y)) and has(%s, (a, z, u)) and (x != z or y != u), y <= z or u <= x)' % (A, A)),
     }
@@ -73,7 +77,7 @@ def index_inv():
 
 
 def ext_arena(ex, args, kw):
-    a = SRef(ref('Arena'), ex.path.new_id())
+    a = SRef(ref('Arena'), ex.path.new_id('Arena'))
     ex.path.write_field(a, 'size', ex.force(args[0]))
     gset(ex, 'arenas_mapped', SV(IntS, gget(ex, 'arenas_mapped').e + 1))
     return a
@@ -105,6 +109,9 @@ FREE_USES = {
     'merged_extent_clear_of_free': _SE + _CLR0 + ['no_two_free_blocks_touch'],
     'merged_extent_clear_of_allocated': _CLA0 + ['allocated_blocks_wf'],
     'allocated_blocks_wf': ['allocated_blocks_wf'],
+    'only_existing_arenas_are_indexed': ['only_existing_arenas_are_indexed'],
+    'only_existing_arenas_are_indexed_by_stop': ['only_existing_arenas_are_indexed_by_stop'],
+    'only_existing_arenas_have_allocated_blocks': ['only_existing_arenas_have_allocated_blocks'],
     'allocated_blocks_disjoint': ['allocated_blocks_disjoint'],
     'allocated_disjoint_from_free': _SE + ['allocated_disjoint_from_free'] + _CLA,
     'start_index_wf': _SE + ['no_two_free_blocks_touch'],
@@ -241,6 +248,15 @@ def build(w):
         'heap.Heap._malloc', prop=PROP,
         params={'self': H, 'size': IntS},
         externals={'bisect.bisect_left': ext_bisect_left, 'heap.Arena': ext_arena},
+        inline=['heap.Heap._roundup'],
+        uses=dict({k: v + ['only_existing_arenas_are_indexed', 'only_existing_arenas_are_indexed_by_stop',
+                                'only_existing_arenas_have_allocated_blocks'] for k, v in FREE_USES.items()},
+                  no_longer_free=_SE + ['only_existing_arenas_are_indexed', 'only_existing_arenas_are_indexed_by_stop'],
+                  disjoint_from_free=_SE + ['free_blocks_disjoint', 'only_existing_arenas_are_indexed', 'every_listed_block_is_free'],
+                  disjoint_from_allocated=['allocated_disjoint_from_free', 'only_existing_arenas_have_allocated_blocks',
+                                           'every_listed_block_is_free'] + _SE,
+                  no_new_arena_while_a_free_extent_is_large_enough=_SE + ['every_free_block_is_listed',
+                                                                          'lengths_are_the_bucket_keys', '*ext']),
         requires=dict(inv, size='size >= 8 and size % 8 == 0 and self._size >= 1', arenas='allocated(self._arenas)'),
         modifies=[S + '.*', E + '.*', L + '.*', LN + '.*', 'list<tup[ref[Arena],int,int]>.*', 'self._size',
                   'self._arenas.*', 'g.arenas_mapped'],
@@ -296,4 +312,8 @@ def ext_bisect_left(ex, args, kw):
     P.assume(z3.And(r.e >= 0, r.e <= ln))
     P.assume(z3.ForAll([j], z3.Implies(z3.And(0 <= j, j < r.e), at(j) < as_arith(x))))
     P.assume(z3.ForAll([j], z3.Implies(z3.And(r.e <= j, j < ln), at(j) >= as_arith(x))))
+    # the same over the multiset view of the list: if no position is left, every element is smaller than x
+    from pyvc.builtins_impl import cnt_get
+    v = z3.Int(fresh_name('v'))
+    P.assume(z3.ForAll([v], z3.Implies(z3.And(r.e == ln, cnt_get(ex, lst, SV(IntS, v)).e >= 1), v < as_arith(x))))
     return r
